@@ -54,6 +54,14 @@ R15c  a child of the crawl target (loop variable, directly or through a local co
       early ``continue``, nested ifs and De Morgan forms are the same test; the type names may
       be constants or ``*T`` with ``T`` a tuple of constants (local, module constant,
       ``self.T`` class attribute).
+
+R15e  (grammar-derived) no RegexParser that produces a type the CP rules crawl accepts quoted text.
+      The crawl set is read as a value, not as a spelling: positional or ``types=``; a set/list/tuple
+      display, ``set()/frozenset()/tuple()/list()/sorted()`` of one, ``|`` ``-`` ``&`` ``.union()``
+      of such values, or a name bound once to one in the class body above the call or at module
+      level (a mutable value only when every other mention of the name merely reads its elements).
+      A crawl set that cannot be read off is reported, never skipped.  Only parsers reachable from
+      the dialect's root segment are judged (an unreferenced library entry produces no segment).
 """
 
 from __future__ import annotations
@@ -73,6 +81,7 @@ from ..index import (
     kwarg,
     last_attr,
     norm,
+    parent,
     qualname,
     short,
     walk_local,
@@ -687,6 +696,108 @@ def _report_val(chk, func, v: Val, what: str, sink: ast.AST) -> None:
         )
 
 
+_READ_ONLY_SET_CALLS = ("set", "frozenset", "tuple", "list", "sorted")
+_MUTABLE_DISPLAY = (ast.Set, ast.List, ast.SetComp, ast.ListComp)
+
+
+def _class_constant(cls: ast.ClassDef, name: str, before: int) -> Optional[ast.AST]:
+    """Value of a name bound exactly once in the class body (plain assignment, above line ``before``)."""
+    vals = []
+    for item in cls.body:
+        if isinstance(item, FuncNode + (ast.ClassDef,)):
+            continue
+        stores = [x for x in ast.walk(item) if isinstance(x, ast.Name) and x.id == name and isinstance(x.ctx, (ast.Store, ast.Del))]
+        if not stores:
+            continue
+        if isinstance(item, ast.Assign) and len(item.targets) == 1 and isinstance(item.targets[0], ast.Name) and len(stores) == 1:
+            vals.append(item)
+        elif isinstance(item, ast.AnnAssign) and item.value is not None and isinstance(item.target, ast.Name) and len(stores) == 1:
+            vals.append(item)
+        else:
+            return None
+    if len(vals) == 1 and vals[0].lineno < before:
+        return vals[0].value
+    return None
+
+
+def _only_read(mods, name: str, use: ast.AST) -> bool:
+    """Every other mention of ``name`` (plain or as an attribute) in the given modules only reads the elements
+    (``*name``, ``x in name``, iteration): a mutable value bound to it is still what its display says."""
+    for m in mods:
+        for x in ast.walk(m.tree):
+            if x is use:
+                continue
+            if (isinstance(x, ast.Name) and x.id == name) or (isinstance(x, ast.Attribute) and x.attr == name):
+                if isinstance(x.ctx, ast.Store):
+                    continue  # the binding itself (a second binding makes the name unresolvable anyway)
+                p = parent(x)
+                if isinstance(p, ast.Starred):
+                    continue
+                if isinstance(p, ast.Compare) and x in p.comparators and all(isinstance(o, (ast.In, ast.NotIn)) for o in p.ops):
+                    continue
+                if isinstance(p, (ast.For, ast.comprehension)) and p.iter is x:
+                    continue
+                return False
+    return True
+
+
+def _crawl_types(mods, m, call: ast.Call, e: ast.AST, depth: int = 0) -> Optional[Set[str]]:
+    """The string constants a crawl-set expression evaluates to, or None when that cannot be read off."""
+    if depth > 8:
+        return None
+    if isinstance(e, (ast.Set, ast.List, ast.Tuple)):
+        out: Set[str] = set()
+        for x in e.elts:
+            if isinstance(x, ast.Constant) and isinstance(x.value, str):
+                out.add(x.value)
+            elif isinstance(x, ast.Starred):
+                sub = _crawl_types(mods, m, call, x.value, depth + 1)
+                if sub is None:
+                    return None
+                out |= sub
+            else:
+                return None
+        return out
+    if isinstance(e, ast.Call) and not e.keywords and not any(isinstance(a, ast.Starred) for a in e.args):
+        f = e.func
+        if isinstance(f, ast.Name) and f.id in _READ_ONLY_SET_CALLS and f.id not in m.defs and f.id not in m.imports and _module_constant(m, f.id) is None:
+            if not e.args:
+                return set()
+            return _crawl_types(mods, m, call, e.args[0], depth + 1) if len(e.args) == 1 else None
+        if isinstance(f, ast.Attribute) and f.attr in ("union", "copy") and (f.attr == "union" or not e.args):
+            out = set()
+            for x in [f.value] + list(e.args):
+                sub = _crawl_types(mods, m, call, x, depth + 1)
+                if sub is None:
+                    return None
+                out |= sub
+            return out
+        return None
+    if isinstance(e, ast.BinOp) and isinstance(e.op, (ast.BitOr, ast.Sub, ast.BitAnd)):
+        a, b = _crawl_types(mods, m, call, e.left, depth + 1), _crawl_types(mods, m, call, e.right, depth + 1)
+        if a is None or b is None:
+            return None
+        return a | b if isinstance(e.op, ast.BitOr) else a - b if isinstance(e.op, ast.Sub) else a & b
+    if isinstance(e, ast.Name):
+        c = enclosing_class(call)
+        val = None
+        if c is not None and enclosing_function(call) is None:
+            val = _class_constant(c, e.id, e.lineno)
+            if val is None and any(isinstance(x, ast.Name) and x.id == e.id and isinstance(x.ctx, (ast.Store, ast.Del)) for it in c.body if not isinstance(it, FuncNode + (ast.ClassDef,)) for x in ast.walk(it)):
+                return None  # bound in the class body, but not as one plain assignment above the call
+        elif enclosing_function(call) is not None:
+            return None  # a crawler built inside a function: locals are not followed here
+        if val is None:
+            val = _module_constant(m, e.id)
+        if val is None:
+            return None
+        mutable = isinstance(val, _MUTABLE_DISPLAY) or (isinstance(val, ast.Call) and isinstance(val.func, ast.Name) and val.func.id in ("set", "list", "sorted"))
+        if mutable and not _only_read(mods, e.id, e):
+            return None
+        return _crawl_types(mods, m, call, val, depth + 1)
+    return None
+
+
 def _r15e(chk, repo) -> None:
     import re as _re
 
@@ -696,17 +807,34 @@ def _r15e(chk, repo) -> None:
     g = load_grammar(repo, cache=not in_selftest)
     # the types the CP rules seek (read from their crawl_behaviour declarations)
     crawled: Set[str] = set()
-    for m in repo.iter_modules("src/sqlfluff/rules/capitalisation/"):
+    cp_mods = list(repo.iter_modules("src/sqlfluff/rules/capitalisation/"))
+    for m in cp_mods:
         for n in ast.walk(m.tree):
-            if isinstance(n, ast.Call) and last_attr(n) == "SegmentSeekerCrawler" and n.args and isinstance(n.args[0], (ast.Set, ast.List, ast.Tuple)):
-                crawled |= {e.value for e in n.args[0].elts if isinstance(e, ast.Constant) and isinstance(e.value, str)}
+            if not (isinstance(n, ast.Call) and last_attr(n) == "SegmentSeekerCrawler"):
+                continue
+            # positional or keyword; a display, set()/frozenset()/... of one, a union, or a name bound once to such a
+            # value in the class body or at module level (decided on the value, not on the spelling)
+            arg = arg_of(n, 0, "types")
+            ts = _crawl_types(cp_mods, m, n, arg) if arg is not None else None
+            if ts is None:
+                # not a verdict on the code: an unreadable crawl set is an analysis gap (exit 2), never a violation
+                raise AnalysisError(
+                    f"R15e: cannot read the set of segment types the crawler at {m.relpath}:{n.lineno} seeks ({short(n, 80)}): whether a crawled type can be a quoted name "
+                    "is undecided; teach _crawl_types the new spelling"
+                )
+            crawled |= ts
     chk.count("R15e.crawled_types", len(crawled))
     chk.floor("R15e.crawled_types", 8)
     samples = ['"ab"', "'ab'", "`ab`", "[ab]"]
     n = 0
     for name, dg in sorted(g.items()):
         seen = set()
+        # only parsers some grammar path from the dialect's root segment leads to can produce a segment: a library
+        # entry nothing refers to (left over, or replaced in this dialect) is not judged
+        reach = dg.reach()
         for node in dg.iter_nodes(family="parser"):
+            if node["id"] not in reach:
+                continue
             its = set(node.get("instance_types") or ())
             if node.get("raw_class_type"):
                 its.add(node.get("raw_class_type"))
@@ -1018,6 +1146,8 @@ _CP05_SKIP = "                if seg.is_type(\n                    \"symbol\", \
 _CP05_SKIP_AND_CALL = _CP05_SKIP + "                res = self._handle_segment(seg, context)\n                if res:\n                    results.append(res)\n"
 _WORD_RX = "\"([^a-zA-Z0-9]+|^)([a-zA-Z0-9])([a-zA-Z0-9]*)\""
 
+_CP02_CRAWL = "    crawl_behaviour = SegmentSeekerCrawler(\n        {\"naked_identifier\", \"properties_naked_identifier\"}\n    )\n"
+
 SELFTEST_NEEDS_FILES = True  # R15d reads the dialect grammar through the front-end, which imports the tree from disk
 
 VARIANTS = [
@@ -1025,7 +1155,7 @@ VARIANTS = [
         "cp02-also-crawls-parameters", "src/sqlfluff/rules/capitalisation/CP02.py",
         '        {"naked_identifier", "properties_naked_identifier"}\n',
         '        {"naked_identifier", "properties_naked_identifier", "parameter"}\n',
-        "R15e", None, "seeded C15-7: quoted function parameter names are re-cased",
+        "R15e", "type=parameter", "seeded C15-7: quoted function parameter names are re-cased",
     ),
     Variant(
         "quoted-warehouse-sizes-become-keywords", "src/sqlfluff/dialects/dialect_snowflake.py",
@@ -1147,6 +1277,62 @@ VARIANTS = [
         "        for leaf_idx, fixed_raw in violations:\n            segment = raw_segments[leaf_idx]\n",
         "        for found in violations:\n            leaf_idx, fixed_raw = found\n            segment = raw_segments[leaf_idx]\n",
         "QUIET", None, "R15a: (index, text) pair of the native result unpacked in the loop body instead of the loop header",
+    ),
+    # R15e: the crawl set and the parsers of the crawled types, re-spelled
+    Variant(
+        "quiet-r15e-cp02-types-as-keyword", PKG + "CP02.py",
+        _CP02_CRAWL,
+        "    crawl_behaviour = SegmentSeekerCrawler(\n        types={\"naked_identifier\", \"properties_naked_identifier\"}\n    )\n",
+        "QUIET", None, "R15e: the crawl set passed by keyword",
+    ),
+    Variant(
+        "quiet-r15e-cp02-types-in-class-attribute", PKG + "CP02.py",
+        _CP02_CRAWL,
+        "    _crawled_types = {\"naked_identifier\", \"properties_naked_identifier\"}\n    crawl_behaviour = SegmentSeekerCrawler(_crawled_types)\n",
+        "QUIET", None, "R15e: the crawl set bound to a name in the class body first",
+    ),
+    Variant(
+        "quiet-r15e-cp05-types-as-set-of-list", CP05,
+        "    crawl_behaviour = SegmentSeekerCrawler(\n        {\n            \"data_type_identifier\",\n            \"primitive_type\",\n            \"datetime_type_identifier\",\n            \"data_type\",\n        }\n    )\n",
+        "    crawl_behaviour = SegmentSeekerCrawler(\n        set(\n            [\n                \"data_type_identifier\",\n                \"primitive_type\",\n                \"datetime_type_identifier\",\n                \"data_type\",\n            ]\n        )\n    )\n",
+        "QUIET", None, "R15e: set display respelled as set([...])",
+    ),
+    Variant(
+        "quiet-r15e-ansi-naked-identifier-parser-keywords-and-local", "src/sqlfluff/dialects/dialect_ansi.py",
+        "        lambda dialect: RegexParser(\n            r\"[A-Z0-9_]*[A-Z][A-Z0-9_]*\",\n            IdentifierSegment,\n            type=\"naked_identifier\",\n",
+        "        lambda dialect: RegexParser(\n            template=r\"(?:[A-Z0-9_]*[A-Z][A-Z0-9_]*)\",\n            raw_class=IdentifierSegment,\n            type=\"naked_identifier\",\n",
+        "QUIET", None, "R15e: the naked identifier parser with keyword arguments, pattern wrapped in a non-capturing group",
+    ),
+    Variant(
+        "quiet-r15e-ansi-unreferenced-quoted-name-parser", "src/sqlfluff/dialects/dialect_ansi.py",
+        "    ParameterNameSegment=RegexParser(\n",
+        "    UnusedDelimitedNameSegment=RegexParser(\n        r'\"[^\"]*\"', IdentifierSegment, type=\"naked_identifier\"\n    ),\n    ParameterNameSegment=RegexParser(\n",
+        "QUIET", None, "R15e: a library entry no grammar refers to never produces a segment",
+    ),
+    # the same breakage as seeded C15-7 in each of those spellings
+    Variant(
+        "r15e-cp02-keyword-types-also-parameters", PKG + "CP02.py",
+        _CP02_CRAWL,
+        "    crawl_behaviour = SegmentSeekerCrawler(\n        types={\"naked_identifier\", \"properties_naked_identifier\", \"parameter\"}\n    )\n",
+        "R15e", "type=parameter", "crawl set passed by keyword is still read",
+    ),
+    Variant(
+        "r15e-cp02-class-attribute-types-also-parameters", PKG + "CP02.py",
+        _CP02_CRAWL,
+        "    _crawled_types = {\"naked_identifier\", \"properties_naked_identifier\", \"parameter\"}\n    crawl_behaviour = SegmentSeekerCrawler(_crawled_types)\n",
+        "R15e", "type=parameter", "crawl set bound in the class body is still read",
+    ),
+    Variant(
+        "r15e-cp05-set-of-list-also-parameters", CP05,
+        "    crawl_behaviour = SegmentSeekerCrawler(\n        {\n            \"data_type_identifier\",\n",
+        "    crawl_behaviour = SegmentSeekerCrawler(\n        set([\"parameter\"]) | {\n            \"data_type_identifier\",\n",
+        "R15e", "type=parameter", "a crawl set built by set([...]) / union is still read",
+    ),
+    Variant(
+        "r15e-ansi-referenced-quoted-name-parser", "src/sqlfluff/dialects/dialect_ansi.py",
+        "    SingleIdentifierGrammar=OneOf(\n        Ref(\"NakedIdentifierSegment\"),\n",
+        "    DelimitedNameSegment=RegexParser(\n        r'\"[^\"]*\"', IdentifierSegment, type=\"naked_identifier\"\n    ),\n    SingleIdentifierGrammar=OneOf(\n        Ref(\"NakedIdentifierSegment\"),\n        Ref(\"DelimitedNameSegment\"),\n",
+        "R15e", "type=naked_identifier", "the same parser, referred to by the identifier grammar, is reported",
     ),
     Variant(
         "cp05-skip-list-loses-quoted-literal", "src/sqlfluff/rules/capitalisation/CP05.py",
